@@ -48,7 +48,8 @@ Perturbs == <<
   [kind |-> "ddd", val |-> 0], [kind |-> "ddd", val |-> 367], [kind |-> "ddd", val |-> 366], [kind |-> "ddd", val |-> -1],  \* -1: contradict month/day
   [kind |-> "wd", val |-> 0],
   [kind |-> "yearneg", val |-> 0], [kind |-> "mmneg", val |-> 0], [kind |-> "ddneg", val |-> 0], [kind |-> "hhneg", val |-> 0],
-  [kind |-> "dup", val |-> 0], [kind |-> "w", val |-> 0], [kind |-> "ww", val |-> 0], [kind |-> "inapp", val |-> 0],
+  [kind |-> "dup", val |-> 1], [kind |-> "dup", val |-> 2], [kind |-> "dup", val |-> 3], [kind |-> "dup", val |-> 4],
+  [kind |-> "w", val |-> 0], [kind |-> "ww", val |-> 0], [kind |-> "inapp", val |-> 0],
   [kind |-> "garbage", val |-> 0], [kind |-> "garbage", val |-> 1],
   \* a value at the end of an interval's range with one lower field pushed above zero
   [kind |-> "over_us", val |-> 1], [kind |-> "over_ss", val |-> 1], [kind |-> "over_mm", val |-> 1] >>
@@ -123,7 +124,11 @@ PerturbOut(cs, pt) ==
     [] pt.kind = "ddneg" -> IF has({"dd"}) /\ HasDate(ty) THEN <<pic, base(pt)>> ELSE none
     [] pt.kind = "hhneg" -> IF has({"hh24"}) THEN <<pic, base(pt)>> ELSE none
     [] pt.kind = "dup" -> IF has(FieldKinds) /\ n < MaxFields - 1 THEN
-                             LET tok == FirstOf(toks, n, FieldKinds)
+                             \* repeat the val-th field code of the picture (the last one if there are fewer)
+                             LET idx == {j \in 1..n : toks[j][1] \in FieldKinds}
+                                 rank(j) == Cardinality({q \in idx : q <= j})
+                                 want == IF pt.val > Cardinality(idx) THEN Cardinality(idx) ELSE pt.val
+                                 tok == toks[CHOOSE j \in idx : rank(j) = want]
                                  extra == SpellToken(tok, ty, f, Canon, NoOv) IN
                              IF extra = NA \/ base(NoOv) = NA THEN none
                              ELSE <<pic \o <<" ">> \o UnlexTok(tok), base(NoOv) \o <<" ">> \o extra>>
